@@ -123,3 +123,8 @@ match x:
     case 0x10 | 0o7 | 0b1 | 1_0: pass
     case 'a' 'b' "c": pass
     case f.g(): pass
+match x:
+    case {False: a}: pass
+    case {True: a, None: b, False: c}: pass
+    case {None: a, **rest}: pass
+    case {-1: a, 1.5: b, 'k': c, b'k': d, 1+2j: e, X.y: f}: pass
